@@ -601,7 +601,9 @@ ValidatorWorld.call_method = _vw_method_h5
 A = "table.attrs"
 contract(F, 'TableValidator._valid_nnz', tier='A', props=['C15'],
     types={'self': 'Obj:TableValidator', 'table': 'H5'}, returns='Str',
-    ensures=["implies(result == '', jhas(%s, 'nnz') and is_jint(%s['nnz']) and jint(%s['nnz']) >= 0)" % (A, A, A)],
+    ensures=["implies(result == '', jhas(%s, 'nnz') and is_jint(%s['nnz']) and jint(%s['nnz']) >= 0)" % (A, A, A),
+             # ... and every non-negative integer passes (zero is the nnz of an all-zero table)
+             "implies(is_jint(%s['nnz']) and jint(%s['nnz']) >= 0, result == '')" % (A, A)],
     raises=ANY_EXC, modifies=[])
 
 contract(F, 'TableValidator._valid_shape', variant='hdf5', tier='A', props=['C15'],
